@@ -26,7 +26,7 @@ def core_family(rep, env, conf, family, tier, what):
 
 @reg
 def check_C02(tier):
-    rep = Report('C02', tier)
+    rep = Report.get('C02', tier)
     env = Env()
     conf = extract_conf(env)
     calls = core_family(rep, env, conf, 'forms', tier, 'C02 family: every naturally typed string (product of value sets) x 10+ constructors')
@@ -34,12 +34,12 @@ def check_C02(tier):
     rep.guard(len([t for t in rep.cover if t.startswith('forms:')]) >= 15 or not calls, 'fewer than 15 types exercised')
     rep.assumptions = ['query round trip only for values without whitespace / URL metacharacters (qsafe tokens)',
                        'theorems checked by TLC on the spec: Canonical, DictFirstIsNatural, DictOrderIrrelevant, UriRoundTrip, QueryRoundTrip']
-    return rep.finish()
+    return rep.done()
 
 
 @reg
 def check_C03(tier):
-    rep = Report('C03', tier)
+    rep = Report.get('C03', tier)
     env = Env()
     conf = extract_conf(env)
     calls = core_family(rep, env, conf, 'nav', tier, 'C03 family: every typed string x 6 constructors + untyped inputs')
@@ -47,12 +47,12 @@ def check_C03(tier):
     rep.guard(any(t.endswith(':untyped') for t in rep.cover) or not calls, 'no untyped navigation exercised')
     rep.guard(len([t for t in rep.cover if t.startswith('nav:')]) >= 8 or not calls, 'not every constructor exercised')
     rep.assumptions = ['theorems checked by TLC on the spec: PrefixClosed, ParentLaws']
-    return rep.finish()
+    return rep.done()
 
 
 @reg
 def check_C04(tier):
-    rep = Report('C04', tier)
+    rep = Report.get('C04', tier)
     env = Env()
     conf = extract_conf(env)
     c1 = core_family(rep, env, conf, 'query', tier, 'C04 family: typed Sids x query overlays (trailing ? and get_with(query=))')
@@ -62,7 +62,7 @@ def check_C04(tier):
     for b in need:
         rep.guard(any(t.endswith(':' + b) for t in rep.cover) or not c1, 'decision-table row %s never exercised' % b)
     rep.assumptions = ['theorems checked by TLC on the spec: AllOrNothing, OptionalNeverAdds, GetWithExact']
-    return rep.finish()
+    return rep.done()
 
 
 def _universes(env, conf):
@@ -96,7 +96,7 @@ def search_family(rep, env, conf, family, tier, what, keep=None, gt=True):
 
 @reg
 def check_C07(tier):
-    rep = Report('C07', tier)
+    rep = Report.get('C07', tier)
     env = Env()
     conf = extract_conf(env)
     calls = search_family(rep, env, conf, 'unfold', tier, 'C07 family: first string of every type x <= MaxEdits syntactic edits')
@@ -105,7 +105,7 @@ def check_C07(tier):
         rep.guard(t in rep.cover or not calls, '%s never exercised' % t)
     rep.assumptions = ['theorems checked by TLC on the spec: UnfoldIsDenote (operational pipeline = declarative denotation), '
                        'ErrorOnlyWhenDenoted, AllTypedAndMatching, NoDoubleStarLeft, LeafOnlyAfterExpand']
-    return rep.finish()
+    return rep.done()
 
 
 def _has_gt(c):
@@ -115,7 +115,7 @@ def _has_gt(c):
 
 @reg
 def check_C08(tier):
-    rep = Report('C08', tier)
+    rep = Report.get('C08', tier)
     env = Env()
     conf = extract_conf(env)
     calls = search_family(rep, env, conf, 'findlist', tier, 'C08 family: searches without ">" x generated universes (complete / leaf-only / noisy)', gt=False)
@@ -123,12 +123,12 @@ def check_C08(tier):
     for t in ('findlist:star:found', 'findlist:star:nothing', 'findlist:error'):
         rep.guard(t in rep.cover or not calls, '%s never exercised' % t)
     rep.assumptions = ['names without glob metacharacters ([ ] ?)', 'universes of spec/Universe.tla (<= 140 entries)']
-    return rep.finish()
+    return rep.done()
 
 
 @reg
 def check_C09(tier):
-    rep = Report('C09', tier)
+    rep = Report.get('C09', tier)
     env = Env()
     conf = extract_conf(env)
     calls = search_family(rep, env, conf, 'findlist', tier, 'C09 family: searches with ">" x universes whose names sort below "/"',
@@ -137,12 +137,12 @@ def check_C09(tier):
     rep.guard('findlist:gt:found' in rep.cover or not calls, 'no ">" search with a result exercised')
     rep.notes['gt_precondition_false'] = rep.cover.get('findlist:gt-precondition-false', 0)
     rep.assumptions = ['the comparison applies where all unfolded forms carry ">" at one position (else counted as gt-precondition-false)']
-    return rep.finish()
+    return rep.done()
 
 
 @reg
 def check_C10(tier):
-    rep = Report('C10', tier)
+    rep = Report.get('C10', tier)
     env = Env()
     conf = extract_conf(env)
     calls = search_family(rep, env, conf, 'algebra', tier, 'C10 family: (search, derived searches) by the five rewrite rules',
@@ -152,12 +152,12 @@ def check_C10(tier):
         rep.guard(any(t.startswith('algebra:' + r) for t in rep.cover) or not calls, 'rule %s never exercised' % r)
     rep.assumptions = ['filter / literal / ** rules generated only where the query does not add a level (overlays belong to C04)',
                        'theorem checked by TLC on the spec: AlgebraHolds over the generated universes']
-    return rep.finish()
+    return rep.done()
 
 
 @reg
 def check_C19(tier):
-    rep = Report('C19', tier)
+    rep = Report.get('C19', tier)
     env = Env()
     conf = extract_conf(env)
 
@@ -181,7 +181,7 @@ def check_C19(tier):
     rep.guard(any(t.endswith(':replace') for t in rep.cover) or not calls, 'no pattern replacement exercised')
     rep.assumptions = ['theorems checked by TLC on the spec: ExtrapolationOK (KeptInOrder, NoDuplicates, OnlyPrefixesAdded, LongestFirst, Complete), ReplaceScoped',
                        'grammar: 4 hierarchies sharing prefixes, chains of 1-5 keys, explicit / bare / colliding names, <= MaxEntries entries']
-    return rep.finish()
+    return rep.done()
 
 
 def path_family(rep, env, conf, family, tier, what, first_cfg=None, reverse=False, tag=None):
@@ -202,7 +202,7 @@ def path_family(rep, env, conf, family, tier, what, first_cfg=None, reverse=Fals
 
 @reg
 def check_C05(tier):
-    rep = Report('C05', tier)
+    rep = Report.get('C05', tier)
     env = Env()
     conf = extract_conf(env)
     calls = path_family(rep, env, conf, 'topath', tier, 'C05 family: value variants of every type x every path configuration (local first)',
@@ -214,12 +214,12 @@ def check_C05(tier):
     rep.guard('topath:nopath' in rep.cover and 'topath:untyped' in rep.cover or not calls, 'no-path / untyped case not exercised')
     rep.assumptions = ['theorems checked by TLC on the spec: RoundTrip (hence injectivity on the family, unambiguous parse), SameUpToRoot',
                        'every call is made positionally, by keyword, twice, and through Sids built by three other constructors']
-    return rep.finish()
+    return rep.done()
 
 
 @reg
 def check_C06(tier):
-    rep = Report('C06', tier)
+    rep = Report.get('C06', tier)
     env = Env()
     conf = extract_conf(env)
     calls = path_family(rep, env, conf, 'frompath', tier, 'C06 family: valid paths x lexeme-level edits, both configurations')
@@ -228,7 +228,7 @@ def check_C06(tier):
         rep.guard(any(k.endswith(':' + t) for k in rep.cover) or not calls, 'no %s path exercised' % t)
     rep.assumptions = ['theorem checked by TLC on the spec: OwnerOnly (a typed result formats back to the path)',
                        'strict (type, fields) comparison is dropped where the spec finds the parse ambiguous; the owner clause is kept']
-    return rep.finish()
+    return rep.done()
 
 
 def store_envs(n, src_env):
@@ -238,7 +238,7 @@ def store_envs(n, src_env):
 
 @reg
 def check_C11(tier):
-    rep = Report('C11', tier)
+    rep = Report.get('C11', tier)
     env = Env()
     conf = extract_conf(env)
     env.run('probe_routing.py', [conf])
@@ -253,7 +253,7 @@ def check_C11(tier):
     rep.guard(any(t.startswith('finders:mixed') for t in rep.cover) or not calls, 'no constant-backed level exercised')
     rep.assumptions = ['universes and junk are those of spec/Universe.tla and spec/Store.tla (JunkOf)',
                        'agreement is claimed for type-complete searches over path-backed, non-constant types; constant-backed levels are validated against the constants semantics of the spec']
-    return rep.finish()
+    return rep.done()
 
 
 def store_family(rep, env, conf, family, tier, what, nenv=4, per=20):
@@ -268,7 +268,7 @@ def store_family(rep, env, conf, family, tier, what, nenv=4, per=20):
 
 @reg
 def check_C16(tier):
-    rep = Report('C16', tier)
+    rep = Report.get('C16', tier)
     env = Env()
     conf = extract_conf(env)
     calls = store_family(rep, env, conf, 'getter', tier, 'C16 family: searches x attribute subsets x sid encoders')
@@ -277,12 +277,12 @@ def check_C16(tier):
         rep.guard(any(k.endswith(':' + t) for k in rep.cover) or not calls, 'no getter call with %s results' % t)
     rep.assumptions = ['attribute data seeded by the harness from SideDataOf of spec/Store.tla (sidecar JSON written directly)',
                        'order is compared against FindInPaths.find run in the same process on the same tree']
-    return rep.finish()
+    return rep.done()
 
 
 @reg
 def check_C12(tier):
-    rep = Report('C12', tier)
+    rep = Report.get('C12', tier)
     env = Env()
     conf = extract_conf(env)
     calls = store_family(rep, env, conf, 'sidreads', tier, 'C12 family: exists / children / siblings of every concrete Sid of the universe, existing or not')
@@ -300,7 +300,7 @@ def check_C12(tier):
                        'reads after creates (histories) are part of the C15 behaviours']
     # failures of the finder agreement itself belong to C11; C12 owns the c12_*, sidreads clauses
     rep.items = [it for it in rep.items if it['kind'] != 'finders' or any(c.startswith('c12_') or c in ('noraise', 'harness') for c in it['clauses'])]
-    return rep.finish()
+    return rep.done()
 
 
 def _sim_behaviours(module, cfg, conf, num, depth, var='hist', extra_env=None):
@@ -326,7 +326,7 @@ def _sim_behaviours(module, cfg, conf, num, depth, var='hist', extra_env=None):
 
 @reg
 def check_C15(tier):
-    rep = Report('C15', tier)
+    rep = Report.get('C15', tier)
     env = Env()
     conf = extract_conf(env)
     env.run('probe_routing.py', [conf])
@@ -334,7 +334,7 @@ def check_C15(tier):
     rep.add_tlc(r, 'all Writer behaviours up to the depth of StoreDyn_%s.cfg (ExistsIff, FailChangesNothing, WriteIsLocal, ...)' % tier)
     if r.violation:
         rep.fail('spec-invariant', 'TLC: ' + K._tlc_error(r.out), record=dict(tlc_tail=r.out[-3000:]))
-        return rep.finish()
+        return rep.done()
     K.tlc_ok(r, 'StoreDyn')
     hists = calls_from_dump(r.dumpfile, var='hist')
     depth = max(len(h) for h in hists)
@@ -362,7 +362,7 @@ def check_C15(tier):
         rep.guard(t in rep.cover or not calls, '%s never exercised' % t)
     rep.assumptions = ['alphabet of 7 Sids derived from the configuration (two files sharing a sidecar, a file of another type, folders, a sibling, a level without path)',
                        'set() and update() are both driven from the Update action (set with one attribute, set with keywords, update with a mapping)']
-    return rep.finish()
+    return rep.done()
 
 
 VTOKENS = ['v%03d' % n for n in list(range(0, 21)) + list(range(996, 1002))]
@@ -370,7 +370,7 @@ VTOKENS = ['v%03d' % n for n in list(range(0, 21)) + list(range(996, 1002))]
 
 @reg
 def check_C18(tier):
-    rep = Report('C18', tier)
+    rep = Report.get('C18', tier)
     env = Env()
     conf = extract_conf(env, extra_tokens=VTOKENS)
     env.run('probe_routing.py', [conf])
@@ -378,7 +378,7 @@ def check_C18(tier):
     rep.add_tlc(r, 'all publish behaviours from every initial version set of VersionDyn_%s.cfg (LastIsGreatest, NextIsSuccessor, NewIsFresh, NewIsSuccessorOfLast, OtherFieldsKept, Monotone)' % tier)
     if r.violation:
         rep.fail('spec-invariant', 'TLC: ' + K._tlc_error(r.out), record=dict(tlc_tail=r.out[-3000:]))
-        return rep.finish()
+        return rep.done()
     K.tlc_ok(r, 'VersionDyn')
     hists = calls_from_dump(r.dumpfile, var='hist')
     depth = max(len(h) for h in hists)
@@ -399,12 +399,12 @@ def check_C18(tier):
         rep.guard(t in rep.cover or not calls, '%s never exercised' % t)
     rep.assumptions = ['version tokens: "v" + 3 digits as configured; numbers 0..20 and 996..1001 modelled',
                        'targets: task, two versions, a state (no path of its own), a file, and "*" / ">" versions']
-    return rep.finish()
+    return rep.done()
 
 
 @reg
 def check_C17(tier):
-    rep = Report('C17', tier)
+    rep = Report.get('C17', tier)
     env = Env()
     conf = extract_conf(env)
     # (a) the design: TLC on the write protocol, crash enabled between all effects and at every byte boundary
@@ -445,12 +445,12 @@ def check_C17(tier):
         rep.guard(t in rep.cover or not calls, '%s never exercised' % t)
     rep.assumptions = ['crash = process death: the state on disk is exactly the effects performed so far (no torn or reordered writes; durability / fsync not claimed)',
                        'effects are taken from strace -f of a real interpreter running WriteToPaths().set(); unreadable = PermissionError injected at pathlib level (the sandbox runs as root)']
-    return rep.finish()
+    return rep.done()
 
 
 @reg
 def check_C13(tier):
-    rep = Report('C13', tier)
+    rep = Report.get('C13', tier)
     env = Env()
     conf = extract_conf(env)
     from common import tlc
@@ -475,7 +475,7 @@ def check_C13(tier):
         e = envs[k]
         job = os.path.join(e.work, 'job.json')
         json.dump(dict(univ='asset:complete', seed=SEED * 100 + k, n_pairs=n_pairs, n_seqs=n_seqs, max_len=max_len, alias='maya',
-                       overlay_key='state', overlay_val='w', missing_ext='psd'), open(job, 'w'))
+                       overlay_key='state', overlay_val='w', missing_ext='psd', other_level3='prop', other_level2='s'), open(job, 'w'))
         extra = {'SPIL_UNIVERSES': uni, 'SPIL_CONF_JSON': conf}
         e.run('run_cache.py', ['--setup', job], hashseed=seeds[k], extra=extra)
         e.run('run_cache.py', [job, os.path.join(e.work, 'cache.trace')], hashseed=seeds[k], extra=extra, timeout=7200)
@@ -522,12 +522,12 @@ def check_C13(tier):
                          % (rec['call']['spelled'][:160], seen[k][1][:120], rec['obs']['fresh_answer'][:120]), record=K._slim(rec), clauses=['same_under_every_hash_seed'])
                 seen[k] = (d, rec['obs']['fresh_answer'])
             seen.setdefault(k, (d, rec['obs']['fresh_answer']))
-    return rep.finish()
+    return rep.done()
 
 
 @reg
 def check_C14(tier):
-    rep = Report('C14', tier)
+    rep = Report.get('C14', tier)
     env = Env()
     conf = extract_conf(env)
     # value part: equality, hash, order, string comparison for pairs (incl. same-string Sids of different types)
@@ -537,7 +537,7 @@ def check_C14(tier):
     rep.add_tlc(r, 'SidHeap: all operation sequences up to the depth of SidHeap_%s.cfg (Frozen, EqualIffSameUri)' % tier)
     if r.violation:
         rep.fail('spec-invariant', 'TLC: ' + K._tlc_error(r.out), record=dict(tlc_tail=r.out[-2000:]))
-        return rep.finish()
+        return rep.done()
     K.tlc_ok(r, 'SidHeap')
     hists = calls_from_dump(r.dumpfile, var='hist')
     depth = max(len(h) for h in hists)
@@ -555,4 +555,40 @@ def check_C14(tier):
     rep.notes['behaviours'] = len(behaviours)
     rep.guard(len([t for t in rep.cover if t.startswith('op:')]) >= 15 or not calls, 'fewer than 15 operations exercised')
     rep.assumptions = ['public Sid API only (fields, get_as, parent, get_with, copy, path, /, ==, hash, sort ...); private attributes are read, never written, by the harness']
+    return rep.done()
+
+
+@reg
+def check_C20(tier):
+    """the drivers of C01-C08 and C11 re-run under configuration packages generated from the shipped one"""
+    from common import PY, HARNESS, REPO, scratch
+    import subprocess
+    rep = Report('C20', tier)
+    variants = ['renamed_everything', 'insert_level'] if tier == 'quick' else ['rename_keys', 'rename_types', 'separators', 'insert_level', 'renamed_everything']
+    subs = [('C01', K.check_C01, 'quick'), ('C02', check_C02, 'quick'), ('C04', check_C04, 'quick'), ('C05', check_C05, 'quick'),
+            ('C06', check_C06, 'quick'), ('C07', check_C07, 'c20'), ('C08', check_C08, 'c20'), ('C11', check_C11, 'quick')]
+    if tier == 'thorough':
+        subs = [(a, b, 'quick') for a, b, _ in subs] + [('C03', check_C03, 'quick')]
+    Report.redirect = rep
+    try:
+        for v in variants:
+            d = os.path.join(scratch('c20conf-'), v)
+            p = subprocess.run([PY, os.path.join(HARNESS, 'gen_conf.py'), os.path.join(REPO, 'spil_hamlet_conf'), v, d], capture_output=True, text=True)
+            if p.returncode != 0:
+                raise Machinery('gen_conf failed: ' + p.stderr[-1000:])
+            os.environ['SPIL_CONFSRC'] = d
+            Report.prefix = v
+            for pid, fn, subtier in subs:
+                n0 = len(rep.items)
+                fn(subtier)
+                rep.runs.append(dict(what='%s driver under configuration %s' % (pid, v), new_failures=len(rep.items) - n0))
+    finally:
+        Report.redirect = None
+        Report.prefix = ''
+        os.environ.pop('SPIL_CONFSRC', None)
+    rep.exhaustive = False
+    rep.notes['configurations'] = variants
+    rep.assumptions = ['configuration family: textual rewrites of the shipped configuration package (gen_conf.py): renamed keys incl. the leaf key, renamed basetypes / type codes / project, '
+                       'changed file-name separators and fixed folders, an inserted hierarchy level; each package is imported by the real spil and extracted anew for the specification',
+                       'the vacuity guards of the sub-drivers are tuned for the shipped configuration and are not applied here']
     return rep.finish()
